@@ -62,26 +62,30 @@ func IfEdges(fn *ssa.Function) []Edge {
 	return out
 }
 
-// EdgesWhere returns the edges of fn's region whose relation (in either
-// orientation) satisfies pred. In helpers the relation is also offered with
-// parameters replaced by the arguments of the helper's single call site, so a
-// predicate about a value of fn recognises it after it was passed down.
+// EdgesWhere returns the edges of fn's region on which a relation satisfying pred (in either orientation) holds.
+// What holds on an edge is given by the atoms the branch condition implies (pathfacts.go): the comparison itself,
+// but also the comparisons behind a named boolean (failed := err != nil; if failed) or a conjunction kept in a
+// variable. In helpers the relation is also offered with parameters replaced by the arguments of the helper's call
+// site, so a predicate about a value of fn recognises it after it was passed down.
 func EdgesWhere(fn *ssa.Function, pred func(r Rel) bool) map[Edge]bool {
 	out := map[Edge]bool{}
 	rg := RegionOf(fn)
 	for _, e := range IfEdges(fn) {
-		r, ok := EdgeRel(e)
-		if !ok {
-			continue
-		}
-		if pred(r) || pred(r.Flip()) {
-			out[e] = true
-			continue
-		}
-		if e.From.Parent() != fn {
-			cr := Rel{rg.Canon(r.X), rg.Canon(r.Y), r.Op}
-			if (cr.X != Strip(r.X) || cr.Y != Strip(r.Y)) && (pred(cr) || pred(cr.Flip())) {
+		for _, a := range ImpliedAtoms(e) {
+			if a.Rel == nil {
+				continue
+			}
+			r := *a.Rel
+			if pred(r) || pred(r.Flip()) {
 				out[e] = true
+				break
+			}
+			if e.From.Parent() != fn {
+				cr := Rel{rg.Canon(r.X), rg.Canon(r.Y), r.Op}
+				if (cr.X != Strip(r.X) || cr.Y != Strip(r.Y)) && (pred(cr) || pred(cr.Flip())) {
+					out[e] = true
+					break
+				}
 			}
 		}
 	}
@@ -89,26 +93,19 @@ func EdgesWhere(fn *ssa.Function, pred func(r Rel) bool) map[Edge]bool {
 }
 
 // BoolEdgesWhere returns the edges on which a boolean value satisfying isV is
-// true (want=true) or false (want=false), over fn's region.
+// true (want=true) or false (want=false), over fn's region - directly, or because the branch condition implies it
+// (if !flag, if flag && other, ok := flag; if ok).
 func BoolEdgesWhere(fn *ssa.Function, isV func(ssa.Value) bool, want bool) map[Edge]bool {
 	out := map[Edge]bool{}
 	rg := RegionOf(fn)
-	for _, g := range rg.Fns {
-		isVg := isV
-		if g != fn {
-			isVg = func(v ssa.Value) bool { return isV(v) || isV(rg.Canon(v)) }
-		}
-		for _, b := range g.Blocks {
-			ifi := BlockIf(b)
-			if ifi == nil {
+	for _, e := range IfEdges(fn) {
+		for _, a := range ImpliedAtoms(e) {
+			if a.Bool == nil || a.Val != want {
 				continue
 			}
-			if s, ok := BoolTrueSucc(ifi, isVg); ok {
-				if want {
-					out[Edge{b, s}] = true
-				} else {
-					out[Edge{b, 1 - s}] = true
-				}
+			if isV(a.Bool) || (e.From.Parent() != fn && isV(rg.Canon(a.Bool))) {
+				out[e] = true
+				break
 			}
 		}
 	}
